@@ -221,7 +221,11 @@ func init() {
 			mkRef("sbom-or-later", "x"), mkRef("sbom-OR-LATER", "x"), mkRef("sbom-only", "x"), mkRef("sbom-ONLY", "x"),
 			// document ids one of which is a prefix of the other, continued by a byte that sorts before ':' (keys compared field
 			// by field instead of as one text)
-			mkRef("spdx-tool", "acme"), mkRef("spdx-tool-1.2", "acme"), mkRef("spdx-tool.1", "acme"), mkRef("spdx-tool1", "acme"), mkRef("spdx-too", "acme"), mkRef("spdx-tool", "acme-1"), mkRef("spdx-tool", "acm")}
+			mkRef("spdx-tool", "acme"), mkRef("spdx-tool-1.2", "acme"), mkRef("spdx-tool.1", "acme"), mkRef("spdx-tool1", "acme"), mkRef("spdx-too", "acme"), mkRef("spdx-tool", "acme-1"), mkRef("spdx-tool", "acm"),
+			// names that contain the text of a reference prefix again (a reader that looks for the LAST occurrence of the prefix,
+			// or splits at it, takes the tail for the name)
+			mkRef("", "acme-LicenseRef-1"), mkRef("", "1"), mkRef("", "LicenseRef-1"), mkRef("", "a-DocumentRef-b"), mkRef("old-DocumentRef-d", "x"), mkRef("d", "x"),
+			mkRef("old-LicenseRef-d", "x"), mkRef("DocumentRef-d", "x"), mkRef("d", "y-LicenseRef-x"), mkRef("d", "LicenseRef-x"), mkRef("", "x")}
 		terms = append(terms, refs...)
 		countN("terms", len(terms))
 		// within-family pairs exhaustively, others sampled
@@ -265,6 +269,27 @@ func init() {
 			}
 			if len(corrQ) > 50000 {
 				flushCorr()
+			}
+		}
+		// EVERY ordered pair of exceptions (57 x 57) behind one licence (rotating through a few licences and the version-range
+		// rules): exceptions compared through a position, an ordinal or a hash coincide for particular pairs only
+		{
+			lics := [][2]string{{"MIT", "MIT"}, {"GPL-2.0-only", "GPL-2.0-only"}, {"GPL-2.0+", "GPL-3.0-only"}, {"Apache-2.0", "apache-2.0"}}
+			for i, ea := range tblExceptions {
+				for j, eb := range tblExceptions {
+					l := lics[(i+j+int(seed))%len(lics)]
+					ma, mb := ea, eb
+					if (i+j)%5 == 0 {
+						mb = strings.ToLower(eb)
+					}
+					count("exception_pairs_exhaustive")
+					want := i == j
+					got := implSat(l[0]+" WITH "+ma, []string{l[1] + " WITH " + mb})
+					res.Evaluations++
+					if got.err != nil || got.panicv != nil || got.ok != want {
+						fail(failure{Stream: "oracle", What: "two terms with the same (or a range-compatible) licence match iff their exceptions are identical", Case: &kase{Expr: l[0] + " WITH " + ma, Allowed: []string{l[1] + " WITH " + mb}}, Impl: got.String(), Expected: fmt.Sprintf("%v", want)})
+					}
+				}
 			}
 		}
 		// every family against every family (one representative id each, a different one per seed), and every ordered pair
